@@ -584,12 +584,186 @@ fn probe_windows(sess: &mut Session, env: &mut Env, a: &str, b: &str) {
     }
 }
 
+/// diagnostics of a publication as sorted `line:col-line:col message` strings
+fn show_pub(v: &Value) -> Vec<String> {
+    let mut out: Vec<String> = v
+        .as_array()
+        .map(|a| a.iter().map(|d| format!("{}:{}-{}:{} {}", d["range"]["start"]["line"], d["range"]["start"]["character"], d["range"]["end"]["line"], d["range"]["end"]["character"], d["message"].as_str().unwrap_or(""))).collect())
+        .unwrap_or_default();
+    out.sort();
+    out
+}
+
+/// every `{command: "HarperIgnoreLint", arguments: [...]}` object inside a code-action response
+fn ignore_commands(v: &Value, out: &mut Vec<Value>) {
+    match v {
+        Value::Object(m) => {
+            if m.get("command").and_then(|c| c.as_str()) == Some("HarperIgnoreLint") && m.get("arguments").is_some() {
+                out.push(m["arguments"].clone());
+            }
+            for x in m.values() {
+                ignore_commands(x, out);
+            }
+        }
+        Value::Array(a) => a.iter().for_each(|x| ignore_commands(x, out)),
+        _ => {}
+    }
+}
+
+/// The ignore path of the SERVER (`textDocument/codeAction` → the embedded `HarperIgnoreLint` command
+/// → `workspace/executeCommand`) through the real `Backend`: the next publication is the previous one
+/// minus exactly the ignored diagnostic; it stays hidden when the same text is sent again and when a
+/// paragraph is put in front of it; everything else harper-core reports is still published.
+fn eval_server(sess: &mut Session, ctx: &Ctx, text: &str, flagged: &str) -> Result<(), crate::lsclient::LsError> {
+    use crate::diagnostics::lints_to_diagnostics;
+    use crate::lsclient::*;
+    set_home(&ctx.out.join("c14-home"));
+    let cfg = json!({"harper-ls": {}});
+    let uri = "file:///c14-server/doc.txt".to_string();
+    let core = |t: &str| -> Vec<String> {
+        let dict = FstDictionary::curated();
+        let doc = Document::new_plain_english(t, &dict);
+        let mut g = LintGroup::new_curated(dict.clone(), Dialect::American);
+        g.config.fill_with_curated();
+        let lints = g.lint(&doc);
+        let sev = crate::config::Config::default().diagnostic_severity;
+        show_pub(&serde_json::to_value(lints_to_diagnostics(doc.get_full_content(), &lints, sev)).unwrap())
+    };
+    let inp = json!({"kind": "server", "text": text, "flagged": flagged});
+    let mut ls = LsSession::start()?;
+    ls.initialize(&cfg)?;
+    ls.notify("textDocument/didOpen", did_open(&uri, "plaintext", text))?;
+    ls.quiesce(&cfg)?;
+    let before = ls.last_publication(&uri).map(show_pub).unwrap_or_default();
+    sess.o();
+    if before != core(text) {
+        sess.count("server:first-publication-differs(C08/C11)");
+        ls.shutdown(&cfg)?;
+        return Ok(());
+    }
+    // the position of the flagged word (ASCII, first line or later)
+    let Some(at) = text.find(flagged) else { ls.shutdown(&cfg)?; return Ok(()) };
+    let line = text[..at].matches('\n').count();
+    let col = at - text[..at].rfind('\n').map(|i| i + 1).unwrap_or(0);
+    let params = json!({"textDocument": {"uri": uri}, "range": {"start": {"line": line, "character": col + 1}, "end": {"line": line, "character": col + 1}}, "context": {"diagnostics": []}});
+    let resp = ls.request_sync("textDocument/codeAction", params, &cfg)?;
+    let mut cmds = vec![];
+    ignore_commands(&resp["result"], &mut cmds);
+    sess.monitor("a code action on a flagged word offers HarperIgnoreLint", !cmds.is_empty());
+    let Some(args) = cmds.first().cloned() else { ls.shutdown(&cfg)?; return Ok(()) };
+    let target_prefix = format!("{}:{}-", line, col);
+    let hidden: Vec<String> = before.iter().filter(|d| d.starts_with(&target_prefix)).cloned().collect();
+    ls.request_sync("workspace/executeCommand", json!({"command": "HarperIgnoreLint", "arguments": args}), &cfg)?;
+    ls.quiesce(&cfg)?;
+    let after = ls.last_publication(&uri).map(show_pub).unwrap_or_default();
+    let minus = |all: &[String], gone: &[String]| -> Vec<String> {
+        let mut v = all.to_vec();
+        for g in gone.iter().take(1) {
+            if let Some(i) = v.iter().position(|x| x == g) {
+                v.remove(i);
+            }
+        }
+        v
+    };
+    sess.o();
+    if after != minus(&before, &hidden) {
+        sess.fail("server-ignore-not-exact", format!("HarperIgnoreLint on {:?}: published before {:?}, after {:?} — not the previous publication minus exactly the ignored diagnostic", flagged, before, after), inp.clone(), None);
+    } else {
+        sess.nontrivial(&format!("server|{}|{}", text, flagged));
+    }
+    // the same text again, then a paragraph in front of it
+    ls.notify("textDocument/didChange", did_change(&uri, 2, text))?;
+    ls.quiesce(&cfg)?;
+    let again = ls.last_publication(&uri).map(show_pub).unwrap_or_default();
+    sess.o();
+    if again != after {
+        sess.fail("server-ignore-forgotten", format!("the same text sent again: {:?} was published, {:?} right after the ignore", again, after), inp.clone(), None);
+    }
+    let intro = "An introduction comes first here.\n\n";
+    let moved = format!("{}{}", intro, text);
+    ls.notify("textDocument/didChange", did_change(&uri, 3, &moved))?;
+    ls.quiesce(&cfg)?;
+    let got = ls.last_publication(&uri).map(show_pub).unwrap_or_default();
+    let shifted_prefix = format!("{}:{}-", line + 2, col);
+    let all = core(&moved);
+    let gone: Vec<String> = all.iter().filter(|d| d.starts_with(&shifted_prefix)).cloned().collect();
+    sess.o();
+    if got != minus(&all, &gone) {
+        sess.fail("server-ignore-edit-unstable", format!("a paragraph put in front of the text: published {:?}; harper-core reports {:?}, of which {:?} is the ignored lint", got, all, gone), inp, None);
+    }
+    ls.shutdown(&cfg)?;
+    Ok(())
+}
+
+/// The ignore path of the JS API (`harper_wasm::Linter::{lint, ignore_lint, export_ignored_lints,
+/// import_ignored_lints}`, built natively): lint, ignore one reported lint, lint again = the first
+/// result minus exactly that lint; a fresh linter that imports the exported list reports the same.
+fn eval_js(sess: &mut Session, text: &str) {
+    use harper_wasm::{Dialect as WDialect, Language, Linter as WLinter};
+    let key = |l: &harper_wasm::Lint| (l.span().start, l.span().end, l.message());
+    let mut js = WLinter::new(WDialect::American);
+    let Ok(first) = guarded(|| js.lint(text.to_string(), Language::Plain)) else { return };
+    for k in 0..first.len() {
+        let mut js = WLinter::new(WDialect::American);
+        let Ok(first) = guarded(|| js.lint(text.to_string(), Language::Plain)) else { return };
+        let want: Vec<_> = first.iter().enumerate().filter(|(i, _)| *i != k).map(|(_, l)| key(l)).collect();
+        let target = key(&first[k]);
+        let mut it = first.into_iter();
+        let Some(l) = it.nth(k) else { return };
+        if guarded(|| js.ignore_lint(text.to_string(), l)).is_err() {
+            sess.fail("js-ignore-panic", "Linter::ignore_lint panicked".into(), json!({"kind": "js", "text": text, "index": k}), None);
+            return;
+        }
+        let Ok(second) = guarded(|| js.lint(text.to_string(), Language::Plain)) else { return };
+        let got: Vec<_> = second.iter().map(key).collect();
+        sess.o();
+        // lints that were shadowed by nothing: the JS API removes overlaps BEFORE ignoring, so nothing new may appear
+        if got != want {
+            sess.fail("js-ignore-not-exact", format!("ignore_lint({:?}): lint() went from {} lints to {:?}, expected the first result minus that lint: {:?}", target, want.len() + 1, got, want), json!({"kind": "js", "text": text, "index": k}), None);
+            return;
+        }
+        let exported = js.export_ignored_lints();
+        let mut fresh = WLinter::new(WDialect::American);
+        if fresh.import_ignored_lints(exported).is_err() {
+            sess.fail("js-import-rejects-export", "import_ignored_lints rejected the exported list".into(), json!({"kind": "js", "text": text, "index": k}), None);
+            return;
+        }
+        let Ok(third) = guarded(|| fresh.lint(text.to_string(), Language::Plain)) else { return };
+        sess.o();
+        if third.iter().map(key).collect::<Vec<_>>() != want {
+            sess.fail("js-export-import-differs", format!("a fresh linter with the exported ignore list reports {:?}, expected {:?}", third.iter().map(key).collect::<Vec<_>>(), want), json!({"kind": "js", "text": text, "index": k}), None);
+            return;
+        }
+        sess.count("js:ignored-one-of-n");
+    }
+}
+
+const SERVER_TEXTS: &[(&str, &str)] = &[
+    ("There is a tset here and it is fine.\n", "tset"),
+    ("A problm is here.\n", "problm"),
+    ("We bought it.\nThis is an test of it, and a problm too.\n", "problm"),
+    ("It is fine. It is an test of teh thing.\n\nAnother paragraph has a mistaek in it.\n", "teh"),
+    ("It is fine. It is an test of teh thing.\n\nAnother paragraph has a mistaek in it.\n", "mistaek"),
+];
+
 pub fn run(ctx: &Ctx) {
     let mut sess = Session::new(ctx);
     let mut rng = Rng::new(ctx.seed);
     let mut env = Env::new();
     if let Some(v) = replay_input(ctx) {
         let text = v["text"].as_str().unwrap_or("").to_string();
+        if v["kind"] == "server" || v["kind"] == "js" {
+            if v["kind"] == "server" {
+                let ok = eval_server(&mut sess, ctx, &text, v["flagged"].as_str().unwrap_or("")).is_ok();
+                sess.monitor("the in-process language server completed the C14 sessions", ok);
+            } else {
+                eval_js(&mut sess, &text);
+            }
+            sess.nontrivial("replay-a");
+            sess.nontrivial("replay-b");
+            sess.finish("replay of one recorded server / JS input", false, json!({}));
+            return;
+        }
         let markdown = v["markdown"].as_bool().unwrap_or(false);
         let ids: Vec<usize> = serde_json::from_value(v["ignore"].clone()).unwrap_or_default();
         let mode = Mode::from_json(&v["mode"]);
@@ -732,9 +906,32 @@ pub fn run(ctx: &Ctx) {
             eval(&mut sess, &mut env, &text, markdown, &[i], &mode, Some(&e), "random");
         }
     }
+    // the ignore paths of the server and of the JS API (the call sites the property names)
+    let mut ok = true;
+    for (t, w) in SERVER_TEXTS {
+        ok &= eval_server(&mut sess, ctx, t, w).is_ok();
+        sess.count("origin:server-session");
+    }
+    sess.monitor("the in-process language server completed the C14 sessions", ok);
+    let njs = if ctx.tier == Tier::Thorough { 300 } else { 40 };
+    for (t, _) in SERVER_TEXTS {
+        eval_js(&mut sess, t);
+    }
+    for _ in 0..njs {
+        let mut t = sents[rng.below(sents.len())].clone();
+        if rng.chance(1, 2) {
+            t.push(' ');
+            t.push_str(&sents[rng.below(sents.len())]);
+        }
+        if t.contains('"') || t.contains('“') || t.contains('”') {
+            continue; // c14-quote-twin-loc is recorded on the core path
+        }
+        eval_js(&mut sess, &t);
+        sess.count("origin:js");
+    }
     let nk = env.kinds.len();
     sess.finish(
-        "corpus (witness of the recorded finding, the repository's ignore tests); every text of ≤3 (quick) / ≤4 (thorough) pieces over {an, apple, problm, \", ., a} × every single lint ignored, exhaustively; rule-test sentences (all rules on, plain English and Markdown) × random subsets of lints × direct / export-import / append × prepend / append / alter-a-far-word edits. Non-trivial = some lint hidden and some kept, or an edit that leaves the ignored lint's windows untouched; distinct by (text, ignored ids, mode/edit).",
+        "corpus (witness of the recorded finding, the repository's ignore tests); every text of ≤3 (quick) / ≤4 (thorough) pieces over {an, apple, problm, \", ., a} × every single lint ignored, exhaustively; rule-test sentences (all rules on, plain English and Markdown) × random subsets of lints × direct / export-import / append × prepend / append / alter-a-far-word edits; the server's ignore path (codeAction → HarperIgnoreLint → executeCommand through the real Backend: next publication = previous minus exactly that diagnostic, stays hidden on re-send and behind a new first paragraph) and the JS API's (lint / ignore_lint / lint, export → import into a fresh linter). Non-trivial = some lint hidden and some kept, or an edit that leaves the ignored lint's windows untouched; distinct by (text, ignored ids, mode/edit).",
         true,
         json!({"exhaustive_scope": format!("texts of ≤{} pieces over a 6-piece vocabulary × each single lint", maxlen), "distinct_token_kinds_interned": nk}),
     );
